@@ -292,6 +292,11 @@ def classify(entries, origs, pl, per_file):
         else:
             st = "present-short"
         cl.add(f"file {st} {pos(i)}")
+        if per_file and pl > 2 * B:
+            nb = -(-(e["L"] % pl or pl) // B)          # blocks of the last (or only) piece
+            if nb & (nb - 1) and nb < pl // B:
+                cl.add("file below one piece with 3/5/6/7 blocks (not a power of two)" if e["L"] < pl
+                       else "last piece of a multi-piece file with 3/5/6/7 blocks")
     if not damaged_files:
         cl.add("intact")
         # layout classes of intact states
@@ -732,8 +737,13 @@ def aimed_cases(pl):
         ([pl + 3, 2 * pl], [("trunc", 1, 0)]),                         # zero bytes on disk, last, not on a boundary
         ([7, pl], [("trunc", 0, 0)]),                                  # zero bytes on disk, first
         ([pl, 3 * pl], [("trunc", 1, 2 * pl)]),                        # boundary, then a file short by a whole piece
-        # an ABSENT EMPTY file that is not the first file, with the damage in a file that sorts after it (the hand-over of
-        # HashChecker.next_file must go on to the following files)
+    ] + absent_empty_cases(pl)
+
+
+def absent_empty_cases(pl):
+    """an ABSENT EMPTY file that is not the first file, with the damage in a file that sorts after it (the hand-over of
+       HashChecker.next_file must go on to the following files)"""
+    return [
         ([100, 0, 100], [("rm", 1), ("flip", 2, 50)]),
         ([pl + 1, 0, 0, 5], [("rm", 1), ("rm", 2), ("trunc", 3, 0)]),
         ([2 * pl + 5, 0, pl + 9], [("rm", 1), ("trunc", 2, pl + 1)]),  # between two multi-piece files, last one short
@@ -786,6 +796,37 @@ V1_KINDS = ["v1", "v1-align", "ref-v1"]
 V2_KINDS = ["v2-class", "v2-asm", "hybrid-class", "hybrid-asm", "ref-v2", "ref-hybrid"]
 
 
+def tie_case(base, seed, mode, pl, sizes, kind, desc, v1side):
+    """
+    one case of tie_generated as a function of its seed (so that a replay file rebuilds it): an aimed layout (pl, sizes, kind,
+    damage given) or, with sizes None, a random one.  Returns (scenario, kind, state, damage description)
+    """
+    rng = random.Random(seed)
+    if sizes is None:
+        pl = rng.choice([16384, 32768])
+        pool = [s for s in trees.boundary_sizes(pl) if s <= 5 * pl]
+        k = rng.randrange(1, 5)
+        sizes = [rng.choice(pool) for _ in range(k)]
+        if sum(sizes) == 0:
+            sizes[rng.randrange(k)] = rng.choice(pool[1:])
+        kind = rng.choice(V1_KINDS if v1side else V2_KINDS)
+    sc = Scenario(base, rng, pl=pl, sizes=sizes, kinds=[kind], never_single=desc is not None)
+    if kind in sc.errors:
+        return sc, kind, None, desc
+    if desc is not None:
+        state = apply_desc(sc.files, desc)
+        desc = [list(d) for d in desc]
+    else:
+        if mode == "C05":
+            ndmg = 0
+        elif mode == "C04":
+            ndmg = rng.randrange(1, 4)
+        else:
+            ndmg = rng.choice([0, 1, 1, 2, 3])
+        state, desc = gen_damage_set(rng, sc.files, sc.pl, ndmg, sc.single) if ndmg else ([d for _, d in sc.files], [])
+    return sc, kind, state, desc
+
+
 def tie_generated(ctx, mode, model_ok):
     """real BLOCK_SIZE cases: creators' and reference metafiles, aimed layouts + boundary sizes with 0..3 damages"""
     n = {"quick": 10, "thorough": 160}[ctx.tier]
@@ -804,43 +845,34 @@ def tie_generated(ctx, mode, model_ok):
                     variants.append(desc)
                 for dv in variants:
                     plan.append((apl, sizes, kinds[a % len(kinds)], dv, v1side))
+    # block counts that are not a power of two below one piece / in the last piece (v2 side; 4 and 8 blocks per piece)
+    for j, (bpl, sizes, desc, dmg_in_quick) in enumerate(blockcount_cases(ctx.tier)):
+        kind = BLOCKCOUNT_KINDS[(j + ctx.seed) % len(BLOCKCOUNT_KINDS)]
+        if mode != "C04":
+            plan.append((bpl, sizes, kind, [], False))
+        if mode == "C04" or (mode == "C16" and (dmg_in_quick or ctx.tier == "thorough")):
+            plan.append((bpl, sizes, kind, desc, False))
     for i in range(n):
         plan.append((None, None, None, None, i % 2 == 0))
     v1_recs, v2_recs = [], []
     with core.Scratch("vrcg_") as tmp:
         os.environ["HOME"] = tmp
         for i, (pl, sizes, kind, desc, v1side) in enumerate(plan):
-            rng = random.Random(ctx.rng.getrandbits(64))
-            if sizes is None:
-                pl = rng.choice([16384, 32768])
-                pool = [s for s in trees.boundary_sizes(pl) if s <= 5 * pl]
-                k = rng.randrange(1, 5)
-                sizes = [rng.choice(pool) for _ in range(k)]
-                if sum(sizes) == 0:
-                    sizes[rng.randrange(k)] = rng.choice(pool[1:])
-                kind = rng.choice(V1_KINDS if v1side else V2_KINDS)
-            sc = Scenario(os.path.join(tmp, f"g{i}"), rng, pl=pl, sizes=sizes, kinds=[kind], never_single=desc is not None)
+            tie_seed = ctx.rng.getrandbits(64)
+            recipe = {"tie_seed": tie_seed, "tie_mode": mode, "tie_pl": pl, "tie_sizes": sizes, "tie_kind": kind,
+                      "tie_damage": None if desc is None else [list(d) for d in desc], "tie_v1side": v1side}
+            sc, kind, state, desc = tie_case(os.path.join(tmp, f"g{i}"), tie_seed, mode, pl, sizes, kind, desc, v1side)
+            pl, sizes = sc.pl, [len(d) for _, d in sc.files]
             if kind in sc.errors:
-                ctx.fail("create-raised", sc.describe(kind, None), "a metafile", sc.errors[kind])
+                ctx.fail("create-raised", sc.describe(kind, None, recipe), "a metafile", sc.errors[kind])
                 continue
             mf, meta = sc.metas[kind]
-            if desc is not None:
-                state = apply_desc(sc.files, desc)
-                desc = [list(d) for d in desc]
-            else:
-                if mode == "C05":
-                    ndmg = 0
-                elif mode == "C04":
-                    ndmg = rng.randrange(1, 4)
-                else:
-                    ndmg = rng.choice([0, 1, 1, 2, 3])
-                state, desc = gen_damage_set(rng, sc.files, pl, ndmg, sc.single) if ndmg else ([d for _, d in sc.files], [])
             sc.set_state(state)
             entries, origs = sc.entries(kind)
             per_file = view_of(meta) == "v2"
             impl = impl_run(mf, sc.root, want_pieces=not per_file)
             ref = reference(meta, sc.root)
-            inp = sc.describe(kind, desc)
+            inp = sc.describe(kind, desc, recipe)
             guard = True
             if per_file:
                 g = v2_piece_guard(entries, origs, pl)
@@ -1064,6 +1096,85 @@ def utf8_digest_block(rng, size):
     return None
 
 
+REUSE_SALT = 0x5EED0C05
+REUSE_PLANS = {          # how one held Checker object is asked, state after state (cycled)
+    "results()": ["results()"],
+    "iter_hashes()": ["iter_hashes()"],
+    "alternating": ["iter_hashes()", "results()"],
+}
+
+
+def new_checker(mf, path):
+    return trees.quiet(lambda: _recheck_mod().Checker(mf, path))
+
+
+def ask(chk, via):
+    """the verdict of an EXISTING Checker object for the disk as it is now: through results(), or by running iter_hashes()
+       to its end and reading _result (what the GUI-style callers do)"""
+    def go():
+        if via == "results()":
+            return chk.results()
+        for _ in chk.iter_hashes():
+            pass
+        return chk._result
+    try:
+        return trees.quiet(go)
+    except Exception as e:  # noqa
+        return f"{type(e).__name__}: {e}"
+
+
+class Held:
+    """Checker objects of one (metafile, content path) that are kept and asked again after every change of the disk"""
+
+    def __init__(self, mf, path):
+        self.objs, self.asked = {}, {}
+        for plan in REUSE_PLANS:
+            try:
+                self.objs[plan] = new_checker(mf, path)
+                self.asked[plan] = []
+            except Exception:  # noqa  (nothing to keep: the construction is judged elsewhere)
+                pass
+
+    def ask_all(self):
+        """[(plan, the asks so far incl. this one, answer)]"""
+        out = []
+        for plan, chk in self.objs.items():
+            seq = REUSE_PLANS[plan]
+            via = seq[len(self.asked[plan]) % len(seq)]
+            self.asked[plan].append(via)
+            out.append((plan, list(self.asked[plan]), ask(chk, via)))
+        return out
+
+
+def is_pct(x):
+    return isinstance(x, (int, float)) and not isinstance(x, bool)
+
+
+def reuse_c04(ctx, held, inp, entries, origs, earlier):
+    """C04 on a reused object: after qualifying damage the object that saw the intact tree must report < 100"""
+    q = qualifies_c04(entries, origs)
+    for plan, asks, again in held.ask_all():
+        if q and not (is_pct(again) and again < 100):
+            ctx.fail("reused-checker-damaged-reports-100", dict(inp, reuse={"plan": plan, "asks": asks, "earlier_states": earlier}),
+                     "< 100 (the same Checker object, asked again after the damage)", again)
+
+
+def reuse_c05(ctx, held, inp, earlier):
+    """C05 on a reused object: after the intact tree is back the object that saw damage must report exactly 100.0"""
+    for plan, asks, again in held.ask_all():
+        if not (isinstance(again, float) and again == 100):
+            ctx.fail("reused-checker-restored-not-100", dict(inp, reuse={"plan": plan, "asks": asks, "earlier_states": earlier}),
+                     "100.0 (the same Checker object, asked again after the intact content is back)", again)
+
+
+def reuse_damage(case_seed, sc):
+    """the damaged / missing state a C05 reuse sequence starts from (a function of the case seed, for the replay)"""
+    r = random.Random(case_seed ^ REUSE_SALT)
+    if not sc.single and r.random() < 0.25:
+        return [None for _ in sc.files], [["rm", i] for i in range(len(sc.files))]
+    return gen_damage_set(r, sc.files, sc.pl, r.randrange(1, 4), sc.single)
+
+
 def e2e(ctx, mode):
     """Checker.results() / the CLI vs the reference verifier on generated trees x metafile kinds x damage sets"""
     ntrees = {"quick": {"C05": 14, "C04": 10, "C16": 10}, "thorough": {"C05": 260, "C04": 160, "C16": 160}}[ctx.tier][mode]
@@ -1095,6 +1206,12 @@ def e2e(ctx, mode):
                 for _ in range(nsets):
                     sets.append(gen_damage_set(rng, sc.files, sc.pl, rng.randrange(1, 5), sc.single))
             held = {}
+            reuse = {}
+            if mode == "C04":
+                # the objects see the intact tree first, then every damage set in turn
+                for kind, (mf, _) in sc.metas.items():
+                    reuse[kind] = Held(mf, sc.root)
+                    reuse[kind].ask_all()
             for sn, (state, desc) in enumerate(sets):
                 sc.set_state(state)
                 for kind, (mf, meta) in sc.metas.items():
@@ -1131,6 +1248,9 @@ def e2e(ctx, mode):
                         r = impl_result(mf, sc.root)
                         impl = {"error": r} if isinstance(r, str) else {"result": r, "results()": r, "trace": []}
                     judge(ctx, mode, "e2e-" + ("v2" if per_file else "v1"), inp, entries, origs, impl, ref, guard_ok=guard)
+                    if mode == "C04" and kind in reuse:
+                        cl.add("a Checker object reused after the disk changed (intact -> damaged)")
+                        reuse_c04(ctx, reuse[kind], inp, entries, origs, [[]] + [d for _, d in sets[:sn]])
                     if guard is not True:
                         cl.add("v2: a piece excluded by the not-all-zero restriction")
                     # content path = parent directory: same verdict (C05); also used for a part of the C04 cases
@@ -1154,11 +1274,104 @@ def e2e(ctx, mode):
                             ctx.fail("cli-vs-library", inp, ri, rc)
                     ctx.case(key=("e2e", mode, i, sn, kind), classes=sorted(cl), nontrivial=True,
                              sample=inp if (i, sn) == (1, 0) and kind == kinds[0] else None)
+            if mode == "C05":
+                # damaged / missing first, then the intact tree again: the SAME objects must now report exactly 100
+                dstate, ddesc = reuse_damage(case_seed, sc)
+                sc.set_state(dstate)
+                for kind, (mf, _) in sc.metas.items():
+                    reuse[kind] = Held(mf, sc.root)
+                    reuse[kind].ask_all()
+                sc.restore()
+                for kind, (mf, meta) in sc.metas.items():
+                    inp = sc.describe(kind, [], {"case_seed": case_seed, "tree_index": i, "set_index": 0})
+                    reuse_c05(ctx, reuse[kind], inp, [ddesc])
+                    ctx.case(key=("e2e-reuse", mode, i, kind), nontrivial=True,
+                             classes=["a Checker object reused after the disk changed (damaged -> restored)", "metafile " + kind])
             shutil.rmtree(base, ignore_errors=True)
         if mode in ("C05", "C16"):
             aimed_utf8(ctx, mode, tmp)
         if mode in ("C04", "C16"):
             aimed_zero_tail(ctx, mode, tmp)
+        aimed_layouts(ctx, mode, tmp)
+
+
+def layout_scenario(base, content_seed, pl, sizes, single, kinds):
+    """a payload of the given sizes (files f00, f01, ...; or one single file) whose content is a function of content_seed"""
+    rng = random.Random(content_seed)
+    if single:
+        return Scenario(base, rng, pl=pl, tree={(): rng.randbytes(sizes[0])}, kinds=kinds)
+    return Scenario(base, rng, pl=pl, sizes=sizes, kinds=kinds, never_single=True)
+
+
+def aimed_layout_list(mode):
+    """(class label, pl, sizes, single, damage, kinds) of the aimed end-to-end layouts"""
+    out = []
+    if mode != "C05":
+        for pl in (32768, 16384):
+            for sizes, desc in absent_empty_cases(pl):
+                out.append(("absent empty file (not the first) before the damage", pl, sizes, False, desc, V2_KINDS + ["v1", "ref-v1"]))
+    bc = "3/5/6/7 blocks below one piece or in the last piece (pl 64/128 KiB)"
+    for pl, sizes in ((P128, [2 * B + 1, 3 * B - 1, 3 * B, 4 * B + 1, 5 * B - 1, 5 * B]),
+                      (P128, [5 * B + 1, 6 * B - 1, 6 * B, 6 * B + 1, 7 * B - 1, 7 * B]),
+                      (P64, [2 * B + 1, 3 * B - 1, 3 * B, P64 + 3 * B, 2 * P64 + 2 * B + 1]),
+                      (P128, [P128 + 3 * B - 1, P128 + 5 * B, P128 + 6 * B + 1, P128 + 6 * B])):
+        last = len(sizes) - 1
+        out.append((bc, pl, sizes, False, [("flip", 1, sizes[1] - 1), ("trunc", last, sizes[last] - B - 1)], V2_KINDS))
+    out.append((bc, P128, [5 * B - 1], True, [("flip", 0, 5 * B - 2)], V2_KINDS))
+    out.append((bc, P64, [P64 + 3 * B], True, [("trunc", 0, P64 + B + 1)], V2_KINDS))
+    return out
+
+
+def aimed_layouts(ctx, mode, tmp):
+    """
+    aimed end-to-end layouts, every metafile kind of the v2 view (and v1 where it applies), judged by the property of the mode:
+    C05 the intact tree (and: objects that saw the damage, asked again once it is intact); C04 the damaged tree (and: objects
+    that saw it intact, asked again after the damage); C16 both states
+    """
+    for n, (label, pl, sizes, single, desc, kinds) in enumerate(aimed_layout_list(mode)):
+        content_seed = ctx.rng.getrandbits(64)
+        sc = layout_scenario(os.path.join(tmp, f"al{n}"), content_seed, pl, sizes, single, kinds)
+        recipe = {"scope": "aimed-layout", "content_seed": content_seed, "sizes": list(sizes)}
+        for k, err in sc.errors.items():
+            ctx.fail("create-raised", sc.describe(k, None, recipe), "a metafile", err)
+        intact = [d for _, d in sc.files]
+        damaged = apply_desc(sc.files, desc)
+        desc = [list(d) for d in desc]
+        reuse = {}
+        if mode == "C04":
+            order = [(damaged, desc)]
+            for kind, (mf, _) in sc.metas.items():
+                reuse[kind] = Held(mf, sc.root)
+                reuse[kind].ask_all()
+        elif mode == "C05":
+            order = [(intact, [])]
+            sc.set_state(damaged)
+            for kind, (mf, _) in sc.metas.items():
+                reuse[kind] = Held(mf, sc.root)
+                reuse[kind].ask_all()
+        else:
+            order = [(intact, []), (damaged, desc)]
+        for state, d in order:
+            sc.set_state(state)
+            for kind, (mf, meta) in sc.metas.items():
+                entries, origs = sc.entries(kind)
+                per_file = view_of(meta) == "v2"
+                guard = True
+                if per_file:
+                    g = v2_piece_guard(entries, origs, pl)
+                    guard = True if all(g) else g
+                inp = sc.describe(kind, d, recipe)
+                judge(ctx, mode, "aimed-" + ("v2" if per_file else "v1"), inp, entries, origs, impl_run(mf, sc.root),
+                      reference(meta, sc.root), guard_ok=guard)
+                cl = {("v2: " if per_file else "") + c for c in classify(entries, origs, pl, per_file)} | {label, "metafile " + kind}
+                if mode == "C04" and kind in reuse:
+                    cl.add("a Checker object reused after the disk changed (intact -> damaged)")
+                    reuse_c04(ctx, reuse[kind], inp, entries, origs, [[]])
+                if mode == "C05" and kind in reuse:
+                    cl.add("a Checker object reused after the disk changed (damaged -> restored)")
+                    reuse_c05(ctx, reuse[kind], inp, [desc])
+                ctx.case(key=("aimed-layout", n, kind, str(d)), classes=sorted(cl), nontrivial=True)
+        shutil.rmtree(sc.base, ignore_errors=True)
 
 
 def aimed_zero_tail(ctx, mode, tmp):
